@@ -304,7 +304,8 @@ public:
             current_awaiter():co_awaiter(*_current) {}
             static bool await_ready() {
                 thread_pool *c = _current;
-                return c == nullptr || c->_exit;
+                //_exit is guarded by the pool's mutex (stop() writes it under the lock)
+                return c == nullptr || c->is_stopped();
             }
         };
 
